@@ -104,6 +104,77 @@ fn repeat_grid(ctx: &Ctx) {
             }
         }
     }
+    // the proposal handed to the constructor may have been used before (it then carries consumed entropy, possibly
+    // buffered draws): after `.seed(s)` two such constructions must still agree bit for bit
+    {
+        use mini_mcmc::distributions::{IsotropicGaussian, Proposal};
+        use mini_mcmc::metropolis_hastings::MetropolisHastings;
+        for seed in SEEDS {
+            for pre in [0usize, 1, 70] {
+                let build = || {
+                    let mut p = IsotropicGaussian::<f64>::new(1.0);
+                    for _ in 0..pre {
+                        let _ = p.sample(&[0.0, 0.0]);
+                    }
+                    let mut s = MetropolisHastings::new(mh_target(), p, init_det(3, 2)).seed(seed);
+                    mh_run_bits(&mut s, NC, ND)
+                };
+                let case = json!({"part": "pre-used-proposal", "sampler": "MH", "seed": seed.to_string(), "proposal_samples_before_construction": pre});
+                ctx.evals(1);
+                ctx.transitions(2);
+                match (catch(build).and_then(|r| r), catch(build).and_then(|r| r)) {
+                    (Err(m), _) | (_, Err(m)) => ctx.violation(Violation::new("C07:panic(MH)", m, case)),
+                    (Ok(a), Ok(b)) => {
+                        if a != b {
+                            ctx.violation(Violation::new(
+                                "C07:not-reproducible(MH, pre-used proposal)",
+                                format!("MH built twice with seed {seed} from a library proposal that had produced {pre} candidate(s) before construction returns different draws"),
+                                case,
+                            ));
+                        } else {
+                            ctx.outcome("pre-used-proposal constructions identical", 1);
+                        }
+                    }
+                }
+            }
+        }
+    }
+    // every single-bit flip of a base seed (and the base itself): 65 seeds per base, outputs pairwise different
+    // (a seed derivation that drops or folds a bit of the user's seed maps two of these to one stream)
+    {
+        use rayon::prelude::*;
+        for kind in KINDS {
+            if kind == Kind::Gibbs {
+                continue;
+            }
+            for base in [0u64, 42] {
+                let seeds: Vec<u64> = std::iter::once(base).chain((0..64).map(|b| base ^ (1u64 << b))).collect();
+                let outs: Vec<(u64, Result<Vec<u64>, String>)> = seeds.par_iter().map(|s| (*s, build_and_run(kind, 2, *s, 8, 4))).collect();
+                ctx.evals(seeds.len() as u64);
+                ctx.transitions(seeds.len() as u64);
+                let mut seen: std::collections::HashMap<u64, u64> = std::collections::HashMap::new();
+                for (s, o) in outs.iter() {
+                    let case = json!({"part": "seed-bits", "sampler": kind.name(), "seed": s.to_string(), "base": base.to_string()});
+                    match o {
+                        Err(m) => ctx.violation(Violation::new(format!("C07:panic({})", kind.name()), format!("{} with seed {s} panicked: {m}", kind.name()), case)),
+                        Ok(bits) => {
+                            let h = hash_of(bits);
+                            if let Some(other) = seen.get(&h) {
+                                ctx.violation(Violation::new(
+                                    format!("C07:seed-ignored({})", kind.name()),
+                                    format!("{}: seeds {other} and {s} (one differing bit of base {base} each) give identical output", kind.name()),
+                                    case,
+                                ));
+                            } else {
+                                seen.insert(h, *s);
+                            }
+                        }
+                    }
+                }
+                ctx.outcome("seed-bit-flip families checked", 1);
+            }
+        }
+    }
     // seeded initialisers are pure (shared with C18)
     for seed in SEEDS {
         let a = init_with_seed::<f64>(5, 3, seed);
@@ -243,7 +314,7 @@ fn cmp(ctx: &Ctx, name: &str, a: Result<Vec<u64>, String>, b: Result<Vec<u64>, S
 }
 
 pub fn run(ctx: &Ctx) {
-    ctx.rule("(a) E2: exhaustive chain-level interleavings of several samplers running concurrently (see c07 interleavings), (b) run() inside a private rayon pool of every stated size vs the stack of chains run alone, (c) repeat/seed grid: seeds {0,1,41,42,2^32,u64::MAX-1,u64::MAX} x {1,3} chains x six sampler configurations built twice, pairwise seed sensitivity, progress vs plain. states = distinct (sampler, seed, chains / pool size / schedule) configurations; transitions = sampler runs; non-trivial = a configuration whose two runs completed, distinct by output hash");
+    ctx.rule("(c') all 64 single-bit flips of the base seeds 0 and 42 per sampler: outputs pairwise different; (a) E2: exhaustive chain-level interleavings of several samplers running concurrently (see c07 interleavings), (b) run() inside a private rayon pool of every stated size vs the stack of chains run alone, (c) repeat/seed grid: seeds {0,1,41,42,2^32,u64::MAX-1,u64::MAX} x {1,3} chains x six sampler configurations built twice, pairwise seed sensitivity, progress vs plain. states = distinct (sampler, seed, chains / pool size / schedule) configurations; transitions = sampler runs; non-trivial = a configuration whose two runs completed, distinct by output hash");
     repeat_grid(ctx);
     pool_sizes(ctx);
     progress_vs_plain(ctx);
@@ -269,6 +340,19 @@ pub fn check_case(ctx: &Ctx, case: &Value) {
                 }
             }
         }
+        Some("seed-bits") => {
+            let Some(kind) = case["sampler"].as_str().and_then(Kind::from) else { return };
+            let seed: u64 = case["seed"].as_str().and_then(|s| s.parse().ok()).unwrap_or(0);
+            let base: u64 = case["base"].as_str().and_then(|s| s.parse().ok()).unwrap_or(0);
+            let a = build_and_run(kind, 2, seed, 8, 4);
+            for other in std::iter::once(base).chain((0..64).map(|b| base ^ (1u64 << b))) {
+                if other != seed && build_and_run(kind, 2, other, 8, 4) == a {
+                    ctx.violation(Violation::new(format!("C07:seed-ignored({})", kind.name()), format!("seeds {other} and {seed} give identical output"), case.clone()));
+                    break;
+                }
+            }
+        }
+        Some("pre-used-proposal") => repeat_grid(ctx),
         Some("pool") => pool_sizes(ctx),
         Some("progress") => progress_vs_plain(ctx),
         Some("interleaving") => super::c07_sched::replay(ctx, case),
